@@ -30,6 +30,10 @@ type CaseC04 struct {
 	Form    string     `json:"form"`              // A: head, claimed hash kept | B: head, hash recomputed | C: next of a valid colluding head | D: refs of a valid colluding head | E: next of a head that passes the pre-check but is refused at join
 	Route   string     `json:"route"`             // sync | topic | direct | loadmore | snapqueue
 	Restart bool       `json:"restart,omitempty"` // afterwards the replica restarts and loads its log
+	// Second (form D): the colluding head's refs name a second bad block of another class as well - "raw": the
+	// bytes of an honest entry under the raw-codec address, "sibling": an entry written for another database -
+	// so that the code meets two different reasons to refuse in one log
+	Second string `json:"second,omitempty"`
 }
 
 func genC04(rt *rapid.T) CaseC04 {
@@ -44,6 +48,9 @@ func genC04(rt *rapid.T) CaseC04 {
 		Restart: rapid.Bool().Draw(rt, "restart"),
 	}
 	c.Hist = genHist(rt, c.Authors, 6)
+	if c.Form == "D" {
+		c.Second = rapid.SampledFrom([]string{"", "raw", "sibling"}).Draw(rt, "second")
+	}
 	return c
 }
 
@@ -282,7 +289,27 @@ func execC04(c CaseC04) *Outcome {
 		for _, h := range world.Heads(cl.Stores[0]) {
 			next = append(next, h.GetHash())
 		}
-		e, err := env.craftValidRefs(ctx, payload, next, []cid.Cid{m.Hash})
+		refs := []cid.Cid{m.Hash}
+		switch c.Second {
+		case "raw":
+			if hs := world.Heads(cl.Stores[0]); len(hs) > 0 {
+				raw := cid.NewCidV1(cid.Raw, hs[0].GetHash().Hash())
+				env.hostile[raw.String()] = "honest bytes under an address they do not hash to (raw codec)"
+				refs = append(refs, raw)
+			}
+		case "sibling":
+			sp, _ := opPayload(c.Type, hostileMarker+"-key", []byte(hostileMarker+"-sibling"))
+			se, err := env.craft(ctx, env.C, cl.Addr+"-other", sp, []cid.Cid{}, 1)
+			if err != nil {
+				return fail("harness: craft sibling entry: %v", err)
+			}
+			env.hostile[se.Hash.String()] = "entry written for another database"
+			refs = append(refs, se.Hash)
+		}
+		if len(refs) > 1 {
+			o.Labels = append(o.Labels, "two-classes-of-bad-refs:"+c.Second)
+		}
+		e, err := env.craftValidRefs(ctx, payload, next, refs)
 		if err != nil {
 			return fail("harness: craft colluding entry: %v", err)
 		}
